@@ -279,3 +279,13 @@ func zzPinRand() {
 
 // zzLockStats cannot be observed natively; obligations on it are structural (flag constants).
 func zzLockStats() (int, bool, bool) { return 0, true, true }
+
+// zzOutStr: string field of the last JSON object written to stdout ("" when absent).
+func zzOutStr(field string) string {
+	if m, ok := zzLastJSON().(map[string]interface{}); ok {
+		if s, ok := m[field].(string); ok {
+			return s
+		}
+	}
+	return ""
+}
